@@ -3,7 +3,7 @@
 # scratch worktree of /repo HEAD and files it under /verif/seeded/<Cxx>-<mK>/ (patch.diff, demo files, NOTES.md, meta.json)
 set -u
 prop=$1; m=$2; dest=${3:-$2}; src=${MUT_ROOT:-/tmp/mut}/$prop.out/$m
-wt=/tmp/mw.$prop.$m
+wt=/var/tmp/mw.$prop.$m
 [ -f $src/patch.diff ] || { echo "no patch"; exit 9; }
 git -C /repo worktree remove --force $wt 2>/dev/null
 git -C /repo worktree add -q --detach $wt HEAD || exit 9
